@@ -15,7 +15,7 @@ def sigma_exec():
                            SG("os", "system"), SG("builtins", "exec"), INST("os", "system"), INST("__builtin__", "eval")])
 
 
-NARROW = "STR MARK TUPLE ETUP EDICT REDUCE OBJ NEWOBJ BUILD BINPERSID POP DUP MEMOIZE BINGET0".split()
+NARROW = "STR NONE MARK TUPLE ETUP EDICT REDUCE OBJ NEWOBJ BUILD BINPERSID POP DUP MEMOIZE BINGET0".split()
 
 
 def sigma_narrow():
